@@ -88,8 +88,50 @@ def build_pool(seed):
         pool.append({"op": "from_bank_code", "cc": cc, "code": code})
         pool.append({"op": "candidates", "cc": cc, "code": code})
         pool.append({"op": "from_bank_code", "cc": cc, "code": code[:-1]})
+    # countries without published positions, explicitly (their table entries are the ones lacking keys)
+    for cc in [c for c in ccs if not o.positions(c)]:
+        t = g.iban(cc, rng)
+        creates.append({"kind": "iban", "text": t})
+        creates.append({"kind": "bban", "cc": cc, "text": t[4:]})
+        pool += [{"op": "iban", "text": t}, {"op": "generate", "cc": cc, "bank_code": "", "account_code": ""},
+                 {"op": "generate", "cc": cc, "bank_code": "1", "account_code": "2"},
+                 {"op": "random", "cc": cc, "seed": 1, "use_registry": False}, {"op": "random", "cc": cc, "seed": 1, "cls": "BBAN"}]
     # ---- groups: calls routed to the same algorithm object / bank key / country, for "burst" histories ------------------
     groups = []
+    for cc in [c for c in ccs if not o.positions(c)]:
+        t = g.iban(cc, rng)
+        c = {"kind": "iban", "text": t}
+        groups.append([{"op": "generate", "cc": cc, "bank_code": "", "account_code": ""},
+                       {"op": "random", "cc": cc, "seed": 3, "use_registry": True},
+                       {"op": "random", "cc": cc, "seed": 3, "cls": "BBAN", "use_registry": False},
+                       {"op": "obj", "create": c, "what": "snapshot"}, {"op": "obj", "create": c, "what": "bic"},
+                       {"op": "obj", "create": c, "what": "bank"}, {"op": "iban", "text": t, "validate_bban": True}])
+    # the same BBAN text under several countries (each judged by its own rules, in any order), incl. argument forms
+    from ._shared import sibling_ibans
+    from ..oracles import nat as onat
+    n_sib = 0
+    for cc in ["DE", "DE", "DE", "ES", "FR", "PT", "MR", "FI", "BA", "MK", "TN", "EE", "IT", "DK", "CM", "CV", "DZ", "AT", "GB"]:
+        if cc == "DE":
+            m = rng.choice([x for x in st["impl"] if st["by_method"].get(x)])
+            b = rng.choice(st["by_method"][m]) + rng.choice(directed_accounts(rng, m))
+        else:
+            b = g.bban(cc, rng, "digits")
+        sibs = sibling_ibans(cc, b, limit=4)
+        if not sibs:
+            continue
+        n_sib += 1
+        grp = []
+        for y, t in [(cc, g.iban_of(cc, b))] + sibs:
+            grp.append({"op": "iban", "text": t, "validate_bban": True})
+            grp.append({"op": "from_bban", "cc": y, "bban": b, "validate_bban": True})
+            grp.append({"op": "from_bban", "cc": y, "bban": b, "validate_bban": True, "as_object": True})
+            grp.append({"op": "obj", "create": {"kind": "iban", "text": t}, "what": "snapshot"})
+            grp.append({"op": "obj", "create": {"kind": "bban", "cc": y, "text": b}, "what": "national"})
+            grp.append({"op": "obj", "create": {"kind": "iban", "text": t}, "what": "rewrap_bban", "arg": {"cc": sibs[0][0]}})
+            grp.append({"op": "iban_of_object", "text": t, "validate_bban": False})
+        groups.append(grp)
+    if n_sib == 0:
+        raise HarnessError("no sibling-country groups could be built")
     for m in st["impl"]:
         grp = []
         accts = []
@@ -167,6 +209,7 @@ def make_machine(rec: Rec, zyg, pool, creates, groups, check_registry_every_step
             super().__init__()
             self.history = []
             self.stored = []
+            self.by_create = {}
             self.failed_before = False
             self.nontrivial = False
 
@@ -203,7 +246,20 @@ def make_machine(rec: Rec, zyg, pool, creates, groups, check_registry_every_step
             """several calls routed to the same algorithm object / bank key / country in a row (any order, repetitions)"""
             grp = groups[gi]
             for j in idxs:
-                self._compare(grp[j % len(grp)])
+                d = grp[j % len(grp)]
+                obj = None
+                if d["op"] == "obj":
+                    # operate on a stored object (created once per history), so that the snapshot invariant watches it
+                    key = json.dumps(d["create"], sort_keys=True)
+                    if key not in self.by_create:
+                        o_ = calls.create(d["create"])
+                        self.by_create[key] = o_
+                        self.stored.append((d["create"], o_, calls.norm_out(calls.apply_obj(o_, "snapshot"))))
+                        self.history.append({"op": "create", "create": d["create"]})
+                        PLOG.append({"op": "create", "create": d["create"]})
+                    obj = self.by_create[key]
+                self._compare(d, obj)
+                self.stored_objects_unchanged()
             rec.classes["burst"] += 1
 
         @rule(i=objs, k=st.integers(0, 50), flag=st.booleans())
